@@ -215,12 +215,12 @@ def run(ctx):
                                key="history:" + lib.digest([gr, script]))
                 if q[0] != "parse_all" or True:
                     lines.append(qline(*q))
-                    exp.append((q, got))
+                    exp.append((q, got, len(script)))
             hits_total += sum(r_.lparse_cache.hits for r_ in reps)
             if any(r_.lparse_cache.max_size for r_ in reps) or lim0:
                 evicting += 1
             blocks.append(lines)
-            exps.append((gr, exp))
+            exps.append((gr, exp, script))
             if len(samples) < 2:
                 samples.append({"grammar": repr(gr), "script": script[:12]})
     finally:
@@ -228,12 +228,27 @@ def run(ctx):
     outs = lib.run_driver_parallel(blocks)
     dis = 0
     csamples = []
-    for (gr, exp), out in zip(exps, outs):
-        for (q, got), ln in zip(exp, out[1:]):
+    for (gr, exp, script), out in zip(exps, outs):
+        for (q, got, nsteps), ln in zip(exp, out[1:]):
             if got != ln:
                 dis += 1
                 if len(csamples) < 5:
                     csamples.append({"grammar": gr, "request": q, "implementation": got, "model": ln})
+                if rep < 3:
+                    # the cold twin agreed with the warm run but the model does not: state that survives `clear_caches` (so the twin
+                    # had it too).  Empty history = the same request as the FIRST one on a freshly built grammar.
+                    try:
+                        _cf, rules_f = G.build(P, gr)
+                        fresh = ec.with_budget(ec.CASE_BUDGET_S, lambda: request(P, rules_f[0], *q), None)
+                    except Exception:  # noqa
+                        fresh = None
+                    if fresh is not None and fresh != got:
+                        found = True
+                        rep += 1
+                        ctx.report("result depends on history: %s(%r, %d) after %d steps: %r, as the first request on a freshly built grammar %r (model: %r)"
+                                   % (q[0], q[1], q[2], nsteps, got[:100], fresh[:100], ln[:100]),
+                                   {"kind": "history", "grammar": gr, "script": script[:nsteps], "request": q, "warm": got, "cold": fresh, "model": ln},
+                                   key="history:" + lib.digest([gr, script[:nsteps]]))
     ctx.corr_samples = csamples
     ctx.coverage.update({
         "slow_grammars_skipped": slow_skipped, "requests_abandoned_half_way": aborts,
